@@ -464,15 +464,16 @@ class Engine:
         return t
 
     def exec_while(self, path, st, frame, budget, concrete_iters=0):
+        """bounded unrolling: an iteration costs one unit of the unwinding budget when its condition is symbolic
+        OR its body took a symbolic decision (the path condition grew); purely concrete iterations are free up to
+        a hard cap.  A path that wants to go on with an empty budget ends in the outcome ('unwind', None)."""
         out = []
         for p, fr, c in self.eval(path, st.test, frame):
             tc = self.truth(c)
-            if not is_sym(tc):
-                # a concrete loop condition costs no unwinding budget (bounded by a hard cap)
+            sym_cond = is_sym(tc)
+            if not sym_cond:
                 if concrete_iters > 5000:
                     raise Unsupported("concrete loop does not terminate")
-                budget += 1 if tc else 0
-                concrete_iters += 1
             for p2, b in self.fork_bool(p, tc):
                 fr2 = self._fork_frame(p2, p, fr)
                 if not b:
@@ -480,17 +481,17 @@ class Engine:
                         out.append((p3, p3._frame, o3))
                     continue
                 if budget <= 0:
-                    # unwinding assertion: a path that wants one more iteration
-                    p2.outcome_cut = True
                     out.append((p2, fr2, ("unwind", None)))
                     continue
+                npc = len(p2.pc)
                 for p3, o3 in self.exec_block(p2, st.body, fr2):
                     if o3 is not None and o3[0] == "break":
                         out.append((p3, p3._frame, None))
                     elif o3 is not None and o3[0] != "continue":
                         out.append((p3, p3._frame, o3))
                     else:
-                        out.extend(self.exec_while(p3, st, p3._frame, budget - 1, concrete_iters))
+                        cost = 1 if (sym_cond or len(p3.pc) > npc) else 0
+                        out.extend(self.exec_while(p3, st, p3._frame, budget - cost, concrete_iters + 1))
         return out
 
     def exec_for(self, path, st, frame):
@@ -861,6 +862,8 @@ class Engine:
         if isinstance(a, SObj) or isinstance(b, SObj):
             return self.obj_binop(path, op, a, b)
         import decimal
+        if isinstance(op, ast.Div) and isinstance(b, float) and b in (math.inf, -math.inf) and is_sym(a):
+            return [(path, 0.0)]          # finite / +-inf = +-0.0
         for x in (a, b):
             if isinstance(x, str) or x is None or isinstance(x, (list, tuple, dict, decimal.Decimal)):
                 return [(path, ("__raise__", "TypeError"))]      # Decimal (+-*/) float is a TypeError in Python
